@@ -193,6 +193,14 @@ class MultiFit(FitBase):
         _y_data_names = []
         _y_model_names = []
         _y_cov_mat_names = []
+
+        def _constraint_cost(parameter_values, parameter_constraints):
+            _cost = 0.0
+            if parameter_constraints is not None:
+                for _parameter_constraint in parameter_constraints:
+                    _cost += _parameter_constraint.cost(parameter_values)
+            return _cost
+
         for _i, _fit_i in enumerate(self._fits):
             if _fit_i._cost_function.is_chi2:
                 _fit_index_to_data_index[_i] = len(_data_indices) - 1
@@ -238,6 +246,28 @@ class MultiFit(FitBase):
                     add_children=False,
                 )
                 _y_cov_mat_names.append(_y_cov_mat_name)
+
+                # The shared cost function replaces the cost function of this fit.
+                # The cost of its parameter constraints still has to be added.
+                if _fit_i._cost_function._add_constraint_cost:
+                    _parameter_values_name = "parameter_values%s" % _i
+                    _parameter_constraints_name = "parameter_constraints%s" % _i
+                    _constraint_cost_name = "constraint_cost%s" % _i
+                    self._nexus.add(
+                        Alias(ref=_fit_i._nexus.get("parameter_values"), name=_parameter_values_name),
+                        add_children=False,
+                    )
+                    self._nexus.add(
+                        Alias(ref=_fit_i._nexus.get("parameter_constraints"), name=_parameter_constraints_name),
+                        add_children=False,
+                    )
+                    self._nexus.add_function(
+                        func=_constraint_cost,
+                        func_name=_constraint_cost_name,
+                        par_names=[_parameter_values_name, _parameter_constraints_name],
+                        add_children=False,
+                    )
+                    _cost_names.append(_constraint_cost_name)
             else:
                 _cost_functions.append(_fit_i._cost_function)
                 _cost_names.append("cost%s" % _i)
@@ -653,8 +683,11 @@ class MultiFit(FitBase):
     @property
     def goodness_of_fit(self):
         _gof_sum = 0.0
-        for _fit in self._fits:
+        for _i, _fit in enumerate(self._fits):
             if self._shared_error_nodes_initialized and _fit._cost_function.is_chi2:
+                _constraint_cost_node = self._nexus.get("constraint_cost%s" % _i)
+                if _constraint_cost_node is not None:
+                    _gof_sum += _constraint_cost_node.value
                 continue
             _gof = _fit.goodness_of_fit
             if _gof is None:
